@@ -7,13 +7,19 @@ Per case (see harness/c01.cpp for the line protocol):
  * Tie: for the incremental solvers the Rat model `Model/Vpsc.lean` is run on the same history and
         compared (positions to 1e-6·scale, flags / active sets / return value / thrown-or-returned
         exactly) whenever every order decision of the model had margin > 1e-7·scale → DIVERGE.
+        For the static `vpsc::Solver` the Rat model `Model/VpscStatic.lean` (totalOrder, mergeLeft /
+        mergeRight with the pairing heaps and time stamps, refine) is run on the same problem and
+        compared under the same guard: positions, active set (up to identical duplicates of a
+        constraint), block partition, return value, thrown-or-returned.
 -/
 import Driver.Proto
 import AdaptaVerif.Model.Vpsc
+import AdaptaVerif.Model.VpscStatic
 import AdaptaVerif.Check.Vpsc
 namespace Driver.C01
 open Driver AdaptaVerif.Num AdaptaVerif.Model.Vpsc
 open AdaptaVerif.Check.Vpsc (C checkPost firstBad feasible Verdict sumW)
+open AdaptaVerif.Model.VpscStatic (SSt partitionOf invOkStatic)
 
 inductive Op where
   | add (j : Nat)
@@ -93,6 +99,9 @@ def checkCase (c : Case) : CaseResult := Id.run do
                                     uns := bits (u[1]?.getD ""), act := bits (a[1]?.getD "") })
       | none => return { verdict := .diverge "unparsable pos" }
     | _, _, _ => return { verdict := .diverge s!"missing pos/uns/act for op {t}" }
+  let sblk : Option (Array Nat) := ((c.get "sblk")[0]?).map fun l => (l.extract 1 l.size).map (fun x => nat! x)
+  -- the static model is tied on unscaled inequality systems (what the static solver supports)
+  let staticTie := vs.all (fun v => v.2.2 == 1) && allCons.all (fun k => !k.eq)
   let scaleD : Rat := 1 + dataMax
   let tol := tolAbs * scaleD
   let scaleFn : Nat → Rat := fun i => (vs.getD i (0, 1, 1)).2.2
@@ -151,6 +160,65 @@ def checkCase (c : Case) : CaseResult := Id.run do
           if !isInc then
             -- the static solver is only driven on inequality DAGs (always feasible): it must not throw
             verdict := worse verdict (.diverge s!"op {t}: static solver threw ({o.status}) on an acyclic inequality system")
+        -- ---------- Tie: the static solver's model
+        if !isInc && t == 0 && staticTie then
+          let s0 := SSt.init vs (allCons.extract 0 curM)
+          let (s1, oc) := if isSolve then s0.solve else s0.satisfy
+          let hs := s1.hs
+          stats := bumpStats stats "smodel.mergeLeft" hs.nMergeL
+          stats := bumpStats stats "smodel.mergeLeftSwapped" hs.nMergeLSwap
+          stats := bumpStats stats "smodel.mergeRight" hs.nMergeR
+          stats := bumpStats stats "smodel.mergeRightSwapped" hs.nMergeRSwap
+          stats := bumpStats stats "smodel.heapInternalDropped" hs.nInternal
+          stats := bumpStats stats "smodel.heapStaleReinserted" hs.nStale
+          stats := bumpStats stats "smodel.refineSplit" hs.nSplit
+          stats := bumpStats stats "smodel.refineRounds" hs.nRounds
+          if hs.nSplit ≥ 2 then stats := bumpStats stats "smodel.casesWithSeveralSplits" 1
+          if !hs.exact then stats := bumpStats stats "smodel.inexactCases" 1
+          let guarded := hs.margin > guardRel * scaleD
+          match oc with
+          | .outOfFuel =>
+            stats := bumpStats stats "smodel.outOfFuel" 1
+            verdict := worse verdict (.diverge s!"op {t}: static model ran out of fuel")
+          | .threw =>
+            stats := bumpStats stats "smodel.threw" 1
+            if guarded && o.status == "ret" then
+              verdict := worse verdict (.diverge s!"op {t}: static model throws (exit scan) but the implementation returned")
+          | .ok mpos mret =>
+            if !(invOkStatic s1.st) then
+              stats := bumpStats stats "smodel.invariantBroken" 1
+              verdict := worse verdict (.diverge s!"op {t}: block invariant does not hold in the static model state after the call")
+            else stats := bumpStats stats "smodel.invariantChecked" 1
+            if o.status != "ret" then
+              if guarded then
+                verdict := worse verdict (.diverge s!"op {t}: implementation threw ({o.status}) but the static model returns")
+            else if guarded then
+              stats := bumpStats stats "sguarded.strict" 1
+              let mut bad : Option String := none
+              for i in [0:n] do
+                let pi := (o.pos.getD i .nan).val
+                if rabs (pi - mpos.getD i 0) > tol then
+                  bad := some s!"position of v{i}: impl {ratStr pi} model {ratStr (mpos.getD i 0)}"
+              -- active set up to identical duplicates (same l, r, gap): compare per class counts
+              let rep : Nat → Nat := fun j =>
+                let cj := allCons[j]!
+                ((List.range j).find? fun k => let ck := allCons[k]!; ck.l == cj.l && ck.r == cj.r && ck.gap == cj.gap).getD j
+              let actM := ((List.range curM).filter fun j => (s1.st.cons[j]!).active).map rep
+              let actI := ((List.range curM).filter fun j => o.act.getD j false).map rep
+              if actM.mergeSort != actI.mergeSort then
+                bad := some s!"active set: impl {actI} model {actM}"
+              match sblk with
+              | some bl =>
+                let pm := partitionOf s1.st
+                if pm.toList != bl.toList then bad := some s!"block partition: impl {bl} model {pm}"
+              | none => pure ()
+              if mret != o.ret then bad := some s!"return value: impl {o.ret} model {mret}"
+              match bad with
+              | some msg =>
+                verdict := worse verdict (.diverge s!"op {t}: static: {msg} (min decision margin {ratStr hs.margin})")
+              | none => pure ()
+            else
+              stats := bumpStats stats "sguarded.loose" 1
         -- ---------- Tie: the model
         if modelAlive then
           let (st', oc) := if isSolve then st.solve else st.satisfy
